@@ -31,19 +31,77 @@ var collabErrorExceptions = map[string]string{
 	"tree.TreeCacheClient.RefreshCaches":     "a failed refresh leaves the index nil; every reader re-refreshes lazily when it finds the index nil, so one transient fault is absorbed (confirmed by reading tree_cache_client.go)",
 	"tree.TreeCacheClientImpl.RefreshCaches": "same: lazy re-refresh on nil index",
 	// site-specific exceptions: "<function> -> <callee>"
-	"datastore.validateLeafTypeValue -> datastore.validateLeafTypeValue":                                                "union: the member types are tried in turn, the failure of one alternative is not an error; after the loop a non-nil error is returned",
-	"utils.ConvertUnion -> utils.Convert":                                                                               "union: alternatives are tried in turn",
-	"utils.convertStringToTv -> utils.convertStringToTv":                                                                "union / leafref: alternatives are tried in turn",
-	"utils.ConvertJsonValueToTv -> utils.ConvertJsonValueToTv":                                                          "union: alternatives are tried in turn",
-	"datastore/target.ncTarget.setCandidate -> datastore/target.ncTarget.Close":                                         "dead-connection branch: the connection is torn down and the original error is returned",
-	"datastore/target.ncTarget.setRunning -> datastore/target.ncTarget.Close":                                           "dead-connection branch: the connection is torn down and the original error is returned",
-	"datastore/types.Transaction.GetRollbackTransaction -> datastore/types.Transaction.AddTransactionIntent":            "the only error is a duplicate intent name; the source is a map keyed by name and the target transaction is fresh",
-	"datastore/types.Transaction.rollback -> datastore/types.TransactionManager.Rollback":                               "timer callback: there is no caller to report to (a failed automatic rollback is outside the single-fault hypothesis of C07; noted as residual)",
-	"datastore/types.TransactionManager.RegisterTransaction$1 -> datastore/types.TransactionManager.CleanupTransaction": "guard cleanup: the only error is 'no such transaction', i.e. it is already gone",
-	"tree.LeafVariants.highestIsUnequalRunning -> cache.Update.Value":                                                   "an undecodable value yields nil, which compares unequal, so the value is (re)sent: the safe side",
-	"tree.RootEntry.Validate -> types.ValidationResults.AddEntry":                                                       "AddEntry has no failing path (always returns nil)",
-	"tree.sharedEntryAttributes.Navigate -> tree.sharedEntryAttributes.tryLoading":                                      "deliberate fallback: when the running store has no value the default is tried next and its error is returned",
-	"tree.sharedEntryAttributes.validateLeafRefs -> tree.sharedEntryAttributes.SdcpbPath":                               "path only used to render the error message",
+	"datastore.validateLeafTypeValue -> datastore.validateLeafTypeValue":                                     "union: the member types are tried in turn, the failure of one alternative is not an error; after the loop a non-nil error is returned",
+	"utils.ConvertUnion -> utils.Convert":                                                                    "union: alternatives are tried in turn",
+	"utils.convertStringToTv -> utils.convertStringToTv":                                                     "union / leafref: alternatives are tried in turn",
+	"utils.ConvertJsonValueToTv -> utils.ConvertJsonValueToTv":                                               "union: alternatives are tried in turn",
+	"datastore/target.ncTarget.setCandidate -> datastore/target.ncTarget.Close":                              "dead-connection branch: the connection is torn down and the original error is returned",
+	"datastore/target.ncTarget.setRunning -> datastore/target.ncTarget.Close":                                "dead-connection branch: the connection is torn down and the original error is returned",
+	"datastore/types.Transaction.GetRollbackTransaction -> datastore/types.Transaction.AddTransactionIntent": "the only error is a duplicate intent name; the source is a map keyed by name and the target transaction is fresh",
+	"<timer callback> -> datastore/types.TransactionManager.Rollback":                                        "timer callback: there is no caller to report to (a failed automatic rollback is outside the single-fault hypothesis of C07; noted as residual)",
+	"<guard cleanup> -> datastore/types.TransactionManager.CleanupTransaction":                               "guard cleanup: the only error is 'no such transaction', i.e. it is already gone",
+	"tree.LeafVariants.highestIsUnequalRunning -> cache.Update.Value":                                        "an undecodable value yields nil, which compares unequal, so the value is (re)sent: the safe side",
+	"tree.RootEntry.Validate -> types.ValidationResults.AddEntry":                                            "AddEntry has no failing path (always returns nil)",
+	"tree.sharedEntryAttributes.Navigate -> tree.sharedEntryAttributes.tryLoading":                           "deliberate fallback: when the running store has no value the default is tried next and its error is returned",
+	"tree.sharedEntryAttributes.validateLeafRefs -> tree.sharedEntryAttributes.SdcpbPath":                    "path only used to render the error message",
+}
+
+// roleFns: functions identified by what they are used for rather than by name - the function values handed to
+// NewTransactionCancelTimer (timer callback) and to NewTransactionGuard (guard cleanup).
+func roleFns(w *core.World) map[*ssa.Function]string {
+	out := map[*ssa.Function]string{}
+	for _, f := range w.RepoFns {
+		for _, c := range core.OwnCalls(f) {
+			role, idx := "", -1
+			switch core.CalleeKey(c) {
+			case "datastore/types.NewTransactionCancelTimer":
+				role, idx = "<timer callback>", 1
+			case "datastore/types.NewTransactionGuard":
+				role, idx = "<guard cleanup>", 0
+			}
+			if role == "" || idx >= len(c.Common().Args) {
+				continue
+			}
+			tg, _ := w.FuncTargets(c.Common().Args[idx])
+			for _, t := range tg {
+				out[t] = role
+			}
+		}
+	}
+	return out
+}
+
+var roleFnCache map[*ssa.Function]string
+var roleFnWorld *core.World
+
+// siteException looks a '<function> -> <callee>' exception up: by the function's own key, by its role, or - for code
+// moved into an unexported helper - by the key of every function the helper is (virtually) inlined into.
+func siteException(w *core.World, f *ssa.Function, callee string) (string, bool) {
+	if reason, ok := collabErrorExceptions[core.FuncKey(f)+" -> "+callee]; ok {
+		return reason, true
+	}
+	if roleFnWorld != w {
+		roleFnCache, roleFnWorld = roleFns(w), w
+	}
+	if role, ok := roleFnCache[f]; ok {
+		if reason, ok := collabErrorExceptions[role+" -> "+callee]; ok {
+			return reason, true
+		}
+	}
+	if core.IsInlined(f) {
+		reason := ""
+		for _, k := range core.HostKeys(f) {
+			r2, ok := collabErrorExceptions[k+" -> "+callee]
+			if !ok {
+				return "", false
+			}
+			reason = r2
+		}
+		if reason != "" {
+			return reason + " (in a helper of that function)", true
+		}
+	}
+	return "", false
 }
 
 // isRepoCallee: the callee is a function or method (or interface method) declared in the repository.
@@ -177,15 +235,39 @@ func errorDisciplineLocal(w *core.World, fn *ssa.Function, c ssa.CallInstruction
 	}
 	if !tested {
 		// stored into a struct field that a getter called in a return statement reads back (memo entry idiom)?
+		type fieldStore struct {
+			at ssa.Instruction
+			fk string
+		}
+		var stores []fieldStore
 		for _, ref := range *ev.Referrers() {
-			st, isStore := ref.(*ssa.Store)
-			if !isStore {
-				continue
+			if st, isStore := ref.(*ssa.Store); isStore {
+				if fk := core.FieldOf(st.Addr); fk != "" {
+					stores = append(stores, fieldStore{st, fk})
+				}
 			}
-			fk := core.FieldOf(st.Addr)
-			if fk == "" {
-				continue
+			// handed to a setter of the repository that stores that parameter into a field
+			if sc, isCall := ref.(*ssa.Call); isCall {
+				if g := sc.Call.StaticCallee(); g != nil && g.Blocks != nil {
+					for ai, a := range sc.Call.Args {
+						if a != ev || ai >= len(g.Params) {
+							continue
+						}
+						for _, b := range g.Blocks {
+							for _, in := range b.Instrs {
+								if st, ok := in.(*ssa.Store); ok && st.Val == ssa.Value(g.Params[ai]) {
+									if fk := core.FieldOf(st.Addr); fk != "" {
+										stores = append(stores, fieldStore{sc, fk})
+									}
+								}
+							}
+						}
+					}
+				}
 			}
+		}
+		for _, fs := range stores {
+			st, fk := fs.at, fs.fk
 			for _, ret := range core.Returns(fn) {
 				if e := errorOperand(ret); e != nil && core.CanFollow(st, ret) {
 					for _, oc := range core.OriginCalls(e) {
@@ -387,7 +469,7 @@ func c07(w *core.World, r *core.Report) {
 			key := core.CalleeKey(c)
 			seenKey[key]++
 			site := core.Site(f, "call %s#%d", key, seenKey[key])
-			if reason, ok := collabErrorExceptions[core.FuncKey(f)+" -> "+key]; ok {
+			if reason, ok := siteException(w, f, key); ok {
 				r.Info("COLLAB-ERRORS", site, w.InstrPos(c), "frozen exception: "+reason)
 				continue
 			}
